@@ -1127,4 +1127,9 @@ PARTS = [
          exhaustive=True),
     Part("op2_uint64", oracle_op2, enum=enum_uint64, quick=(4, None), thorough=(4, None), exhaustive=True),
     Part("op2_nbytes", oracle_nbytes, enum=enum_nbytes, quick=(4, None), thorough=(4, None), exhaustive=True),
+    # coverage-guided (atheris / libFuzzer) tier over the same strategies and oracles
+    Part("fuzz_op4", oracle_op4, strategy=op4_files, quick=(2, 400), thorough=(4, 20000),
+         fuzz=dict(modules=["pyyeti.nastran.op4"], time=30, time_thorough=400), tmax_thorough=600),
+    Part("fuzz_op2", oracle_op2, strategy=op2_files, quick=(2, 400), thorough=(4, 20000),
+         fuzz=dict(modules=["pyyeti.nastran.op2"], time=30, time_thorough=400), tmax_thorough=600),
 ]
